@@ -55,6 +55,22 @@ PAIRS = [
     ('DlChannelAnsCreator', 'set_uplink_frequency_exists_ack', 'DlChannelAnsPayload', 'uplink_freq_ack', 'b', 0, 1, 1),
     ('DeviceTimeAnsCreator', 'set_seconds', 'DeviceTimeAnsPayload', 'seconds', 'u', 0, 0, 32),
 ]
+# (module, payload type) -> (CID, payload length in bytes; None = variable length)
+CID_TABLE = {
+    **{('maccommands', n + 'Payload'): v for n, v in {
+        'LinkCheckReq': (0x02, 0), 'LinkCheckAns': (0x02, 2), 'LinkADRReq': (0x03, 4), 'LinkADRAns': (0x03, 1), 'DutyCycleReq': (0x04, 1), 'DutyCycleAns': (0x04, 0),
+        'RXParamSetupReq': (0x05, 4), 'RXParamSetupAns': (0x05, 1), 'DevStatusReq': (0x06, 0), 'DevStatusAns': (0x06, 2), 'NewChannelReq': (0x07, 5), 'NewChannelAns': (0x07, 1),
+        'RXTimingSetupReq': (0x08, 1), 'RXTimingSetupAns': (0x08, 0), 'TXParamSetupReq': (0x09, 1), 'TXParamSetupAns': (0x09, 0), 'DlChannelReq': (0x0A, 4), 'DlChannelAns': (0x0A, 1),
+        'DeviceTimeReq': (0x0D, 0), 'DeviceTimeAns': (0x0D, 5)}.items()},
+    **{('certification', n + 'Payload'): v for n, v in {
+        'DutResetReq': (0x01, 0), 'DutJoinReq': (0x02, 0), 'AdrBitChangeReq': (0x04, 1), 'TxPeriodicityChangeReq': (0x06, 1), 'TxFramesCtrlReq': (0x07, None),
+        'EchoIncPayloadReq': (0x08, None), 'EchoIncPayloadAns': (0x08, None), 'RxAppCntReq': (0x09, 0), 'RxAppCntAns': (0x09, 2), 'LinkCheckReq': (0x20, 0),
+        'DutVersionsReq': (0x7F, 0), 'DutVersionsAns': (0x7F, 12)}.items()},
+    **{('multicast', n + 'Payload'): v for n, v in {
+        'PackageVersionReq': (0x00, 0), 'PackageVersionAns': (0x00, 2), 'McGroupStatusReq': (0x01, 1), 'McGroupStatusAns': (0x01, None), 'McGroupSetupReq': (0x02, 29),
+        'McGroupSetupAns': (0x02, 1), 'McGroupDeleteReq': (0x03, 1), 'McGroupDeleteAns': (0x03, 1), 'McClassCSessionReq': (0x04, 10), 'McClassCSessionAns': (0x04, 4),
+        'McClassBSessionReq': (0x05, 10), 'McClassBSessionAns': (0x05, 4)}.items()},
+}
 NOT_JUDGED = {'DeviceTimeAnsCreator::set_nano_seconds': 'lossy by design (nanoseconds quantised to 1/256 s)'}
 # RFU bits of the byte that a setter may also clear (written as constant 0): (payload byte, bit)
 RFU = {('DevStatusAnsCreator', 'set_margin'): {(1, 6), (1, 7)}}
@@ -289,6 +305,28 @@ def run(tier):
                     instance='%s: len %s = 1 + %s, CID 0x%02x on both sides' % (creator, l1, l2, cid1 or 0))
     if n_len < 12:
         raise CheckError('floor: creators checked for framing %d < 12' % n_len)
+    # command identifiers and payload lengths against the specifications (LoRaWAN 1.0.4 section 5, TS009-1.x, TS005-1.x): both
+    # sides of this repository are generated from one table, so agreement between them cannot show a wrong table entry
+    n_cid = 0
+    for pth in sorted(prog.by_short):
+        m = re.match(r'^lorawan::(maccommands|certification|multicast)::(\w+Payload)::cid$', pth)
+        if not m:
+            continue
+        mod, name = m.group(1), m.group(2)
+        a3, f3, o3, r3 = tables.run_fn(prog, prog.by_short[pth][0], depth=3)
+        cid = tables._single(o3, r3) if o3 is not None else None
+        ml = [q for q in prog.by_short if q == pth[:-5] + '::max_len']
+        ln = None
+        if ml:
+            a4, f4, o4, r4 = tables.run_fn(prog, prog.by_short[ml[0]][0], depth=4)
+            ln = tables._single(o4, r4) if o4 is not None else None
+        want = CID_TABLE.get((mod, name))
+        n_cid += 1
+        res.require(want is not None and cid == want[0] and (want[1] is None or ln == want[1]), 'C19:%s::%s:cid-table' % (mod, name),
+                    '%s::%s: CID %s, payload length %s; specification: %s' % (mod, name, cid, ln, 'CID 0x%02x, %s byte(s)' % (want[0], want[1] if want[1] is not None else 'variable') if want else 'no entry in the command table of the check'),
+                    pth, 'ORACLE(CID and payload length per command)', instance='%s::%s: CID 0x%02x, payload %s byte(s)' % (mod, name, want[0] if want else -1, want[1] if want else '?'))
+    if n_cid < 44:
+        raise CheckError('floor: payload types compared with the command table %d < 44' % n_cid)
     n_arms = stream_framing(c, res)
     res.coverage.update({'pairs': len(PAIRS), 'not_judged': NOT_JUDGED, 'configs': [c.info], 'parse_one_arms': n_arms})
     res.explanation = __doc__
